@@ -648,3 +648,138 @@ pub fn c05_roles(cx: &mut Ctx) {
         }
     }
 }
+
+/// C19 — plugin verdicts are enforced before anything reaches a server.
+///
+/// For every tagged statement the generator labelled as referring to a listed table (in a
+/// spelling PostgreSQL resolves to it), when the pooler's parser accepts the message and the
+/// plugins are enabled: its tag never appears at any mock backend, in this or any later batch,
+/// and the client gets the permission error. The intercepted query gets exactly the configured
+/// rows and is not forwarded. With plugins disabled everything is forwarded.
+pub fn c19_plugins(cx: &mut Ctx) {
+    use sqlparser::dialect::PostgreSqlDialect;
+    use sqlparser::parser::Parser;
+    let h = cx.h;
+    let plan = cx.spec.params.get("c19_plan").cloned().unwrap_or_default();
+    let plugins_on = cx.param_bool("plugins_on");
+    for c in h.clients.values() {
+        if c.database == "pgcat" || c.auth_result != "ok" {
+            continue;
+        }
+        for s in &c.steps {
+            if s.op != "send" {
+                continue;
+            }
+            if !matches!(s.outcome, StepOutcome::Ready(_)) {
+                // the pooler closed this client (it does so for a Bind of an unknown statement):
+                // nothing after this was answered
+                cx.probe("c19_client_disconnected");
+                break;
+            }
+            if s.tags.is_empty() {
+                continue;
+            }
+            let texts: Vec<String> = {
+                let (msgs, _) = proto::split_all(&s.sent);
+                msgs.iter()
+                    .filter(|m| m.ty == b'Q' || m.ty == b'P')
+                    .filter_map(|m| {
+                        let mut r = proto::Reader::new(&m.body);
+                        if m.ty == b'P' {
+                            let _ = r.cstr();
+                        }
+                        r.cstr()
+                    })
+                    .collect()
+            };
+            let accepted = texts.iter().all(|t| Parser::parse_sql(&PostgreSqlDialect {}, t).is_ok());
+            let errors: Vec<String> = s.msgs.iter().filter(|m| m.ty == b'E').map(|m| proto::error_fields(&m.body).get(&'M').cloned().unwrap_or_default()).collect();
+            let permission_error = errors.iter().any(|e| e.contains("permission for table"));
+            let mut seen = BTreeSet::new();
+            for tag in s.tags.iter().filter(|t| seen.insert(**t)) {
+                let entry = match plan.get(tag.to_string()) {
+                    Some(e) => e.clone(),
+                    None => continue,
+                };
+                let at_mock: Vec<(usize, usize)> = cx.ix.units_by_tag.get(tag).cloned().unwrap_or_default();
+                let where_ = entry.get("where").and_then(|v| v.as_str()).unwrap_or("").to_string();
+                if entry.get("intercept").is_some() {
+                    if !accepted {
+                        continue;
+                    }
+                    if plugins_on {
+                        cx.probe("c19_intercept_checked");
+                        if !at_mock.is_empty() {
+                            cx.v("C19", "intercept_forwarded", "C19/intercepted_query_forwarded", s.done_seq, format!("client {} step {}: the intercepted query was also sent to {}", c.id, s.idx, h.backend_conns[at_mock[0].0].host));
+                        }
+                        let shape: Vec<u8> = s.msgs.iter().map(|m| m.ty).collect();
+                        let rows: Vec<Vec<Option<Vec<u8>>>> = s.msgs.iter().filter(|m| m.ty == b'D').map(|m| proto::data_row_cols(&m.body)).collect();
+                        let cols: Vec<String> = s.msgs.iter().find(|m| m.ty == b'T').map(|m| row_description_names(&m.body)).unwrap_or_default();
+                        let ok = shape == vec![b'T', b'D', b'C', b'Z'] && cols == vec!["a".to_string(), "b".to_string()] && rows == vec![vec![Some(b"db".to_vec()), Some(b"{public}".to_vec())]];
+                        if !ok {
+                            cx.v("C19", "intercept_reply", "C19/intercepted_query_wrong_reply", s.done_seq, format!("client {} step {}: reply to the intercepted query has message types {:?}, columns {:?}, {} row(s); errors {:?}", c.id, s.idx, String::from_utf8_lossy(&shape), cols, rows.len(), errors));
+                        }
+                    } else {
+                        cx.probe("c19_intercept_rule_disabled");
+                        if at_mock.is_empty() && matches!(s.outcome, StepOutcome::Ready(_)) && pooler_error(&s.msgs).is_none() {
+                            cx.v("C19", "disabled_plugin_acted", "C19/intercept_although_disabled", s.done_seq, format!("client {} step {}: plugins are disabled but the query never reached a server", c.id, s.idx));
+                        }
+                    }
+                    continue;
+                }
+                let listed = entry.get("listed").and_then(|v| v.as_bool()).unwrap_or(false);
+                if !listed || entry.get("companion").is_some() {
+                    continue;
+                }
+                if !accepted {
+                    cx.probe("c19_statement_not_accepted_by_parser");
+                    continue;
+                }
+                let spelling = entry.get("spelling").and_then(|v| v.as_str()).unwrap_or("");
+                let position = entry.get("position").and_then(|v| v.as_str()).unwrap_or("");
+                if plugins_on {
+                    cx.probe("c19_listed_statement_checked");
+                    cx.probe(&format!("c19_where_{}", where_));
+                    cx.probe(&format!("c19_spelling_{}", spelling));
+                    cx.probe(&format!("c19_position_{}", position));
+                    if !at_mock.is_empty() {
+                        let (ci, ui) = at_mock[0];
+                        let u = &h.backend_conns[ci].units[ui];
+                        let later = u.first_seq > s.done_seq && s.done_seq > 0;
+                        cx.v(
+                            "C19",
+                            "denied_statement_at_server",
+                            &format!("C19/listed_table_statement_reached_server/spelling={}/where={}{}", spelling, where_, if later { "/in_a_later_batch" } else { "" }),
+                            u.first_seq,
+                            format!("client {} step {}: a statement referring to a listed table ({} spelling, {} position, sent {}) reached {}: {}", c.id, s.idx, spelling, position, where_, h.backend_conns[ci].host, texts.join(" | ").chars().take(160).collect::<String>()),
+                        );
+                    } else if matches!(s.outcome, StepOutcome::Ready(_)) && !permission_error {
+                        cx.v("C19", "no_permission_error", &format!("C19/no_permission_error/where={}", where_), s.done_seq, format!("client {} step {}: the statement was kept from the servers but the client did not get the permission error; errors {:?}", c.id, s.idx, errors));
+                    }
+                } else {
+                    cx.probe("c19_control_plugins_disabled");
+                    if permission_error {
+                        cx.v("C19", "disabled_plugin_acted", "C19/denied_although_disabled", s.done_seq, format!("client {} step {}: plugins are disabled but the client got {:?}", c.id, s.idx, errors));
+                    }
+                }
+            }
+        }
+    }
+}
+
+fn row_description_names(body: &[u8]) -> Vec<String> {
+    let mut r = proto::Reader::new(body);
+    let n = r.i16().unwrap_or(0).max(0) as usize;
+    let mut out = Vec::new();
+    for _ in 0..n {
+        match r.cstr() {
+            Some(name) => out.push(name),
+            None => break,
+        }
+        // table oid, column attr, type oid, type len, type mod, format
+        if r.bytes(18).is_none() {
+            break;
+        }
+    }
+    out
+}
